@@ -761,6 +761,14 @@ def guard_strs(g):
     return []
 
 
+def unconditional(e, events):
+    """The event happens on every execution of its function: no branch / loop / closure context
+    and no early exit before it."""
+    if [g for g in e.guards if g[2] not in ('inline',)]:
+        return False
+    return not [x for x in events if x.idx < e.idx and x.kind in ('ret', 'try', 'break', 'continue')]
+
+
 def dominates(a, b):
     """Structural dominance: a is evaluated before b on every path that reaches b."""
     ga = [g for g in a.guards if g[2] != 'inline']
